@@ -720,7 +720,12 @@ public:
       res = res && m_alloc_env.is_top();
     }
     if (crab_domain_params_man::get().region_deallocation()) {
-      res = res && m_rgn_equiv_classes.is_top();
+      // The union-find of a top region_domain is the empty one (no
+      // region is known): union_find_domain::is_top() only holds
+      // for a value built by union_find_domain::top().
+      res = res && (m_rgn_equiv_classes.is_top() ||
+		    (!m_rgn_equiv_classes.is_bottom() &&
+		     m_rgn_equiv_classes.is_empty()));
     }
     if (crab_domain_params_man::get().region_tag_analysis()) {
       res = res && m_tag_env.is_top();
